@@ -85,7 +85,7 @@ def run(ctx):
                 svg_jobs.append(c10mod.Job(subj, 'svg', scale, border, dict(kw)))
     c10mod.run_jobs(svg_jobs)
     for j in svg_jobs:
-        n += 1
+        evaluations += 1
         failures += j.failures[:2]
     # ---- per-type colouring: PNG and PPM with k distinct colours (k = 2..12, with / without a transparent one)
     import io as _io, struct as _struct, zlib as _zlib
